@@ -119,44 +119,44 @@ Qed.
 
 (* ---- the handlers: the store is reached only through a successful check ---- *)
 
-(* the file id text the store operation will use, when everything parses *)
-Definition target_fid (rq : request) (fid : string) : option string :=
-  if is_upload (rq_method rq) then upload_fid (rq_path rq) else Some fid.
-
+(* Proceed v f: v,f are parseURLPath's reading of the path, the check passed on them, and for an
+   upload the needle CreateNeedleFromRequest built is the needle f denotes (rq_same_needle) *)
 Theorem proceed_authorized : forall tab cfg rq v f, handle tab cfg rq = Proceed v f ->
-  exists fid, parse_url_path (rq_path rq) = Some (v, fid) /\
-    check_jwt tab cfg (is_write_method (rq_method rq)) rq v fid = true /\
-    target_fid rq fid = Some f /\
-    (is_write_method (rq_method rq) = true -> rq_public rq = false /\ whitelist_blocks cfg rq = false).
+  parse_url_path (rq_path rq) = Some (v, f) /\
+  check_jwt tab cfg (is_write_method (rq_method rq)) rq v f = true /\
+  (is_upload (rq_method rq) = true -> rq_same_needle rq = true) /\
+  (is_write_method (rq_method rq) = true -> rq_public rq = false /\ whitelist_blocks cfg rq = false).
 Proof.
-  intros tab cfg rq v f H. unfold handle, target_fid in *.
+  intros tab cfg rq v f H. unfold handle in *.
   destruct (rq_method rq) eqn:Em; simpl.
   - unfold get_or_head in H. destruct (parse_url_path (rq_path rq)) as [[vid fid]|]; [|discriminate].
     destruct (check_jwt tab cfg false rq vid fid) eqn:Ec; simpl in H; [|discriminate].
     destruct (rq_vid_ok rq); simpl in H; [|discriminate]. destruct (rq_fid_ok rq); simpl in H; [|discriminate].
-    injection H as <- <-. exists fid. repeat split; auto; discriminate.
+    injection H as <- <-. repeat split; auto; discriminate.
   - unfold get_or_head in H. destruct (parse_url_path (rq_path rq)) as [[vid fid]|]; [|discriminate].
     destruct (check_jwt tab cfg false rq vid fid) eqn:Ec; simpl in H; [|discriminate].
     destruct (rq_vid_ok rq); simpl in H; [|discriminate]. destruct (rq_fid_ok rq); simpl in H; [|discriminate].
-    injection H as <- <-. exists fid. repeat split; auto; discriminate.
+    injection H as <- <-. repeat split; auto; discriminate.
   - destruct (rq_public rq); [discriminate|]. destruct (whitelist_blocks cfg rq); [discriminate|].
     unfold post in H. destruct (parse_url_path (rq_path rq)) as [[vid fid]|]; [|discriminate].
     destruct (rq_vid_ok rq); simpl in H; [|discriminate].
     destruct (check_jwt tab cfg true rq vid fid) eqn:Ec; simpl in H; [|discriminate].
     destruct (upload_fid (rq_path rq)) as [u|]; [|discriminate].
     destruct (rq_upfid_ok rq); simpl in H; [|discriminate].
-    injection H as <- <-. exists fid. repeat split; auto.
+    destruct (rq_same_needle rq); simpl in H; [|discriminate].
+    injection H as <- <-. repeat split; auto.
   - destruct (rq_public rq); [discriminate|]. destruct (whitelist_blocks cfg rq); [discriminate|].
     unfold post in H. destruct (parse_url_path (rq_path rq)) as [[vid fid]|]; [|discriminate].
     destruct (rq_vid_ok rq); simpl in H; [|discriminate].
     destruct (check_jwt tab cfg true rq vid fid) eqn:Ec; simpl in H; [|discriminate].
     destruct (upload_fid (rq_path rq)) as [u|]; [|discriminate].
     destruct (rq_upfid_ok rq); simpl in H; [|discriminate].
-    injection H as <- <-. exists fid. repeat split; auto.
+    destruct (rq_same_needle rq); simpl in H; [|discriminate].
+    injection H as <- <-. repeat split; auto.
   - destruct (rq_public rq); [discriminate|]. destruct (whitelist_blocks cfg rq); [discriminate|].
     unfold delete in H. destruct (parse_url_path (rq_path rq)) as [[vid fid]|]; [|discriminate].
     destruct (check_jwt tab cfg true rq vid fid) eqn:Ec; simpl in H; [|discriminate].
-    injection H as <- <-. exists fid. repeat split; auto.
+    injection H as <- <-. repeat split; auto; discriminate.
 Qed.
 
 Definition is_proceed (o : hresult) : bool := match o with Proceed _ _ => true | _ => false end.
@@ -203,65 +203,53 @@ Proof.
     destruct (rq_public rq); try reflexivity; destruct (whitelist_blocks cfg rq); reflexivity.
 Qed.
 
-(* FULL on the token, for every request: with the key of the request's class configured,
-   the store is reached only with a present, well-formed, unexpired HMAC token signed with
-   THAT key whose claim is textually "<vid>,<fid without _suffix>" as parseURLPath reads the path *)
-Theorem accept_token_sound : forall tab cfg rq v f,
-  key_for cfg (is_write_method (rq_method rq)) <> "" ->
-  handle tab cfg rq = Proceed v f ->
-  exists fid, parse_url_path (rq_path rq) = Some (v, fid) /\
-    valid_token_for tab (key_for cfg (is_write_method (rq_method rq))) rq (v ++ "," ++ strip_suffix fid).
+(* an upload whose own reading of the path gives another needle than the checked fid is refused
+   (the repair of finding C34/0) *)
+Theorem upload_other_needle_refused : forall tab cfg rq,
+  is_upload (rq_method rq) = true -> rq_same_needle rq = false ->
+  is_proceed (handle tab cfg rq) = false.
 Proof.
-  intros tab cfg rq v f Hk H. apply proceed_authorized in H.
-  destruct H as [fid [Hp [Hc _]]]. exists fid. split; [assumption|].
-  apply check_jwt_sound; assumption.
+  intros tab cfg rq Hu Hs. unfold handle.
+  destruct (rq_method rq); try discriminate;
+    (destruct (rq_public rq); [reflexivity|]; destruct (whitelist_blocks cfg rq); [reflexivity|];
+     unfold post; destruct (parse_url_path (rq_path rq)) as [[vid fid]|]; [|reflexivity];
+     destruct (rq_vid_ok rq); [|reflexivity]; simpl;
+     destruct (check_jwt tab cfg true rq vid fid); [|reflexivity]; simpl;
+     destruct (upload_fid (rq_path rq)); [|reflexivity];
+     destruct (rq_upfid_ok rq); [|reflexivity]; simpl; rewrite Hs; reflexivity).
 Qed.
 
-Lemma no_trigger_same_fid : forall rq fid f,
-  trig_upload_target rq = false -> parse_url_path (rq_path rq) = Some fid ->
-  target_fid rq (snd fid) = Some f -> f = snd fid.
-Proof.
-  intros rq [v fid] f Ht Hp Hf. unfold trig_upload_target, target_fid in *. simpl in *.
-  destruct (is_upload (rq_method rq)); [|congruence].
-  rewrite Hp, Hf in Ht. simpl in Ht. apply negb_false_iff in Ht. apply String.eqb_eq in Ht. congruence.
-Qed.
-
-(* c34_accept_sound, PARTIAL: outside the trigger the claim names the file the store is addressed with *)
-Theorem accept_sound_partial : forall tab cfg rq v f,
+(* c34_accept_sound, FULL: with the key of the request's class configured, the store is reached
+   only with a present, well-formed, unexpired HMAC token signed with THAT key whose claim is
+   textually "<vid>,<fid without _suffix>" of the file the store is addressed with *)
+Theorem accept_sound : forall tab cfg rq v f,
   key_for cfg (is_write_method (rq_method rq)) <> "" ->
-  trig_upload_target rq = false ->
   handle tab cfg rq = Proceed v f ->
   valid_token_for tab (key_for cfg (is_write_method (rq_method rq))) rq (v ++ "," ++ strip_suffix f).
 Proof.
-  intros tab cfg rq v f Hk Ht H. apply proceed_authorized in H.
-  destruct H as [fid [Hp [Hc [Hf _]]]].
-  pose proof (no_trigger_same_fid rq (v, fid) f Ht Hp Hf) as E. simpl in E. subst f.
-  apply check_jwt_sound; assumption.
+  intros tab cfg rq v f Hk H. apply proceed_authorized in H.
+  destruct H as [Hp [Hc _]]. apply check_jwt_sound; assumption.
 Qed.
 
-(* reads and deletes are never inside the trigger *)
-Theorem trigger_only_uploads : forall rq, is_upload (rq_method rq) = false -> trig_upload_target rq = false.
-Proof. intros rq H. unfold trig_upload_target. rewrite H. reflexivity. Qed.
-
-(* the model's acceptance implies the reference, outside the trigger: if a claim that is
-   textually "<vid>,<fid>" of the addressed file names it (hypothesis on the oracle bit) *)
+(* the model's acceptance implies the reference used by the correspondence check, if a claim
+   that is textually "<vid>,<fid>" of the addressed file names it (hypothesis on the oracle bit) *)
 Theorem proceed_allowed : forall tab cfg rq presented v f,
   In (get_jwt rq) presented ->
-  trig_upload_target rq = false ->
   (forall t, lookup (get_jwt rq) tab = Some t ->
              t_fid t = v ++ "," ++ strip_suffix f -> t_names_target t = true) ->
   handle tab cfg rq = Proceed v f -> spec_allows tab cfg rq presented = true.
 Proof.
-  intros tab cfg rq presented v f Hin Ht Hnt H. unfold spec_allows.
+  intros tab cfg rq presented v f Hin Hnt H. unfold spec_allows.
   destruct (sempty (key_for cfg (is_write_method (rq_method rq)))) eqn:Ek; [reflexivity|].
   simpl. apply sempty_false in Ek.
-  destruct (accept_sound_partial tab cfg rq v f Ek Ht H) as [t [H1 [H2 [H3 [H4 [H5 [H6 [H7 [H8 H9]]]]]]]]].
+  destruct (accept_sound tab cfg rq v f Ek H) as [t [H1 [H2 [H3 [H4 [H5 [H6 [H7 [H8 H9]]]]]]]]].
   apply existsb_exists. exists (get_jwt rq). split; [assumption|].
   rewrite H2. unfold token_good. rewrite (Hnt t H2 H9).
   unfold decode_ok. rewrite H3, H4, H5, H6, H7, H8, String.eqb_refl. reflexivity.
 Qed.
 
-(* ---- c34_accept_sound, REFUTED: a token for file 1 writes file 2 ---- *)
+(* ---- the former witness of finding C34/0: a token for file 1, an upload path whose file name
+   carries file 2 — now answered 400 before the store ---- *)
 Definition w_key : string := "wkey".
 Definition w_tok : token :=
   {| t_wellformed := true; t_alg := AlgHMAC; t_signed_with := w_key; t_exp_ok := true; t_nbf_ok := true;
@@ -269,23 +257,26 @@ Definition w_tok : token :=
 Definition w_rq : request :=
   {| rq_public := false; rq_method := PUT; rq_query_jwt := "T"; rq_auth := "";
      rq_path := "/3/01637037d6/x,02637037d6";
-     rq_vid_ok := true; rq_fid_ok := true; rq_upfid_ok := true; rq_wl_pass := false |}.
+     rq_vid_ok := true; rq_fid_ok := true; rq_upfid_ok := true; rq_same_needle := false; rq_wl_pass := false |}.
 Definition w_cfg : config := {| write_key := w_key; read_key := ""; wl_active := false |}.
 
-Theorem accept_sound_refuted :
-  handle [("T", w_tok)] w_cfg w_rq = Proceed "3" "02637037d6" /\
+Example repaired_witness :
   parse_url_path (rq_path w_rq) = Some ("3", "01637037d6") /\
-  t_fid w_tok <> "3" ++ "," ++ strip_suffix "02637037d6" /\
-  trig_upload_target w_rq = true.
-Proof. vm_compute. repeat split; congruence. Qed.
+  upload_fid (rq_path w_rq) = Some "02637037d6" /\
+  handle [("T", w_tok)] w_cfg w_rq = BadRequest.
+Proof. vm_compute. repeat split. Qed.
 
 (* non-vacuity and the textual quirk: the same token on the plain URL is fine, a zero-padded
    volume id in the claim is refused although it denotes the same volume *)
 Example accept_example :
   let rq := {| rq_public := false; rq_method := DELETE; rq_query_jwt := ""; rq_auth := "Bearer T";
-               rq_path := "/3,01637037d6_1"; rq_vid_ok := true; rq_fid_ok := true; rq_upfid_ok := true; rq_wl_pass := false |} in
-  trig_upload_target rq = false /\
+               rq_path := "/3,01637037d6_1"; rq_vid_ok := true; rq_fid_ok := true; rq_upfid_ok := true;
+               rq_same_needle := true; rq_wl_pass := false |} in
+  let up := {| rq_public := false; rq_method := PUT; rq_query_jwt := "T"; rq_auth := "";
+               rq_path := "/3,01637037d6.txt"; rq_vid_ok := true; rq_fid_ok := true; rq_upfid_ok := true;
+               rq_same_needle := true; rq_wl_pass := false |} in
   handle [("T", w_tok)] w_cfg rq = Proceed "3" "01637037d6_1" /\
+  handle [("T", w_tok)] w_cfg up = Proceed "3" "01637037d6" /\
   handle [("T", {| t_wellformed := true; t_alg := AlgHMAC; t_signed_with := w_key; t_exp_ok := true; t_nbf_ok := true;
                    t_iat_ok := true; t_fid := "03,01637037d6"; t_names_target := true |})] w_cfg rq = Unauthorized /\
   handle [("T", {| t_wellformed := true; t_alg := AlgNone; t_signed_with := ""; t_exp_ok := true; t_nbf_ok := true;
